@@ -720,6 +720,50 @@ def history_worker(_job):
     return acc
 
 
+def time_ns_worker(_job):
+    """v4-v6 carry one sub-second flag for the whole record: every present time then has a nanosecond word.
+    Every subset of present times x every subset of them that has nanoseconds must survive (a time
+    without nanoseconds comes back with 0 when another time has them)."""
+    acc = core.Acc()
+    for v in (4, 5, 6):
+        times = ['atime', 'crtime', 'mtime'] + (['ctime'] if v >= 6 else [])
+        for tmask in range(1, 1 << len(times)):
+            present = [t for i, t in enumerate(times) if tmask >> i & 1]
+            for nmask in range(1 << len(present)):
+                with_ns = [t for i, t in enumerate(present) if nmask >> i & 1]
+                a = SFTPAttrs()
+                a.type = 1
+                a.size = 5
+                for i, t in enumerate(present):
+                    setattr(a, t, 1600000000 + i)
+                    if t in with_ns:
+                        setattr(a, t + '_ns', 100 + i)
+                viol = []
+                try:
+                    enc = a.encode(v)
+                    pk = SSHPacket(enc)
+                    b = SFTPAttrs.decode(pk, v)
+                    pk.check_end()
+                    for i, t in enumerate(present):
+                        want_ns = (100 + i if t in with_ns else 0) if with_ns else None
+                        if getattr(b, t) != 1600000000 + i or getattr(b, t + '_ns') != want_ns:
+                            viol.append(('time-roundtrip', 'v%d times %r, nanoseconds on %r: %s comes back as %r.%r, expected %r.%r'
+                                         % (v, present, with_ns, t, getattr(b, t), getattr(b, t + '_ns'), 1600000000 + i, want_ns)))
+                            break
+                    for t in times:
+                        if t not in present and getattr(b, t) is not None:
+                            viol.append(('time-roundtrip', 'v%d: absent %s comes back as %r' % (v, t, getattr(b, t))))
+                    if b.size != 5 or b.type != 1:
+                        viol.append(('time-roundtrip', 'v%d: size/type damaged: %r/%r' % (v, b.size, b.type)))
+                except Exception as exc:        # pylint: disable=broad-except
+                    viol.append(('codec-exception', 'v%d times %r, nanoseconds on %r: %r' % (v, present, with_ns, exc)))
+                acc.add(core.digest(('time-ns', v, tmask, nmask)), transitions=1,
+                        sample={'version': v, 'times': present, 'with_nanoseconds': with_ns} if v == 6 and tmask == 15 and nmask == 5 else None)
+                for k, det in viol[:1]:
+                    acc.violation('codec:%s:v%d' % (k, v), det, {'kind': 'time-ns'})
+    return acc
+
+
 def misc_codecs():
     acc = core.Acc()
     objs = [SFTPVFSAttrs(4096, 4096, 1000, 900, 800, 100, 90, 80, 0x1234, 1, 255),
@@ -775,6 +819,7 @@ def main(tier, seed):
     acc.merge(core.pmap(codec_worker, cj))
     acc.merge(misc_codecs())
     acc.merge(core.pmap(history_worker, [0]))
+    acc.merge(core.pmap(time_ns_worker, [0]))
     shutil.rmtree(SCRATCH, ignore_errors=True)
     rule = ('(a) %d sets of 2-3 concurrent SFTPClient calls over the model server; at every step any outstanding '
             'request may be answered correctly, or (once) with each wrong reply type, an unknown id, a duplicate id '
@@ -784,7 +829,8 @@ def main(tier, seed):
             'refuses or fails each of 26 methods in turn (every reply parses as its own type, the refused request '
             'gets STATUS with the mapped code); (c) attribute codecs '
             'for every subset of 5 (v3), 9 (v4), 10 (v5), 16 (v6) field groups incl. independent layout encoders; '
-            'every file type x every sequence of <= 3 versions encoded from one object (no mutation, no history)'
+            'every file type x every sequence of <= 3 versions encoded from one object (no mutation, no history); '
+            'every subset of present times x every subset of them carrying nanoseconds'
             % (len(call_sets), bound))
     return core.finish(PROP, tier, seed, 'model_checking', acc, t0, rule,
                        {'client_execs': n_a, 'server_execs': n_b, 'codec_cases': acc.evaluations - n_a - n_b},
@@ -812,7 +858,7 @@ def replay(rep):
         v = codec_worker((r['v'], [r['mask']])).violations
         print(json.dumps(v, indent=1, default=repr))
     else:
-        v = misc_codecs().violations + history_worker(0).violations
+        v = misc_codecs().violations + history_worker(0).violations + time_ns_worker(0).violations
     if v:
         print('VIOLATION property=%s replay=(given)' % PROP)
         return 1
